@@ -124,3 +124,24 @@ Proof.
   - apply Z.ltb_lt in E. left. lia.
   - apply Z.ltb_ge in E. right. lia.
 Qed.
+
+(* lower-case hexadecimal digit characters: what radix <= 16 renderings consist of *)
+Definition hexdigit (c : cp) : Prop := exists d, 0 <= d < 16 /\ c = digit_char d.
+
+Lemma hexdigit_is_digit_char c : hexdigit c -> is_digit_char c.
+Proof. intros (d & Hd & ->). exists d. split; [lia|reflexivity]. Qed.
+
+Lemma show_nat_radix_hex r n : 2 <= r <= 16 -> 0 <= n ->
+  exists c l, show_nat_radix r n = c :: l /\ hexdigit c /\ Forall hexdigit l.
+Proof.
+  intros Hr Hn. unfold show_nat_radix.
+  destruct (to_digits_spec r n) as (_ & Hok & Hne & _); [lia|lia|].
+  destruct (to_digits r n) as [|d l]; [congruence|].
+  inversion Hok; subst. exists (digit_char d), (map digit_char l). split; [reflexivity|].
+  split. exists d. split; [lia|reflexivity].
+  apply Forall_map. eapply Forall_impl; [|eassumption]. intros x Hx. cbv beta in Hx.
+  exists x. split; [lia|reflexivity].
+Qed.
+
+Lemma show_nat_radix_hex_all r n : 2 <= r <= 16 -> 0 <= n -> Forall hexdigit (show_nat_radix r n).
+Proof. intros Hr Hn. destruct (show_nat_radix_hex r n Hr Hn) as (c & l & -> & Hc & Hl). now constructor. Qed.
